@@ -983,3 +983,59 @@ def r_parity(rep, f):
                 rep.inconc("R-PARITY", key, "nothing analysed")
             else:
                 rep.ok("R-PARITY", key, "%d time-like value(s) (step taken, stage offsets, next step) have the right parity under time reflection; %d ordering test(s) evaluated in the main loop compare sides whose difference is even" % (n, len(n_cond)))
+
+
+# ------------------------------------------------------------------------------------------ R-TOL-FROM
+def r_tol_from(rep, f):
+    """A tolerance given as a vector (slice, array, Vec) is per-component: after the conversion, component i of the Tolerance
+    reads back entry i of what the user passed.  Every `From<..> for Tolerance` conversion of a sequence is evaluated exactly
+    (polynomial domain) on vectors of length 1..4 with generic entries AND with entries that coincide in every pattern (equal
+    ends, equal neighbours, all equal): a conversion that takes a shortcut on some coincidence must still return the entries."""
+    from cxs import CxS, CxPanic, CxUnknown
+    import itertools
+    IDX = "<methods::Tolerance as std::ops::Index<usize>>::index"
+    fns = sorted({n for n in f.bodies if n.startswith("<methods::Tolerance as std::convert::From<") and n != "<methods::Tolerance as std::convert::From<f64>>::from"})
+    if IDX not in f.bodies or not fns:
+        rep.inconc("R-TOL-FROM", "R-TOL-FROM:anchor", "Tolerance conversions / Index<usize> not found")
+        return
+    n_ok = 0
+    for fn in fns:
+        rep.fn(fn)
+        key = "R-TOL-FROM:%s" % fn
+        bad, unknown, n_inst = None, None, 0
+        for n in range(1, 5):
+            # set partitions of the positions through "restricted growth strings": every pattern of coincidences
+            for pat in itertools.product(range(n), repeat=n):
+                if any(pat[i] > max(pat[:i], default=-1) + 1 for i in range(n)) or pat[0] != 0:
+                    continue
+                vec = [Poly.atom("t%d" % c) for c in pat]
+                try:
+                    cx = CxS(f)
+                    tolv = cx.call_fn(fn, [list(vec)])
+                    got = [cx.call_fn(IDX, [tolv, i]) for i in range(n)]
+                except CxPanic as e:
+                    bad = bad or (pat, "panics (%s)" % e)
+                    continue
+                except (CxUnknown, Exception) as e:
+                    unknown = unknown or str(e)[:140]
+                    continue
+                n_inst += 1
+                from cxs import dderef as _dd
+                got = [_dd(g) for g in got]
+                if got != vec and bad is None:
+                    j = next(i for i in range(n) if got[i] != vec[i])
+                    bad = (pat, "component %d reads %r, the user passed %r" % (j, got[j], vec[j]))
+        if bad:
+            rep.violation("R-TOL-FROM", key, "a tolerance vector with the coincidence pattern %s is not kept per component: %s (a shortcut taken on equal entries looks at "
+                          "some of them only)" % (list(bad[0]), bad[1]), f.bodies[fn].get("sp"))
+        elif unknown or n_inst == 0:
+            rep.inconc("R-TOL-FROM", key, "conversion not evaluated: %s" % (unknown or "no instance"), f.bodies[fn].get("sp"))
+        else:
+            n_ok += 1
+            rep.ok("R-TOL-FROM", key, "%d instances (lengths 1..4, every coincidence pattern of the entries): component i reads back entry i" % n_inst)
+    if n_ok < 1 and not rep_has(rep, "R-TOL-FROM"):
+        rep.inconc("R-TOL-FROM", "R-TOL-FROM:floor", "no sequence conversion into Tolerance was decided")
+
+
+def rep_has(rep, rule):
+    return any(x.get("rule") == rule for x in list(rep.violations) + list(rep.inconclusive))
